@@ -2,7 +2,7 @@
 # thorough tier of one property (DESIGN.md 1.3):
 #  (1) self-validation corpus: every seeded property-breaking change of this property (seeded/<id>-mN) and every
 #      reverted fix: commit of this property must be reported; every behaviour-preserving variant tagged with this
-#      property must stay silent. Each variant is analysed in its own scratch worktree of /repo's HEAD + working tree
+#      property (and every independently produced refactoring of its anchored code) must stay silent. Each variant is analysed in its own scratch worktree of /repo's HEAD + working tree
 #      state is NOT used for variants (they are patches against HEAD) - the worktree is removed afterwards.
 #  (2) the rules on the GOOS=windows / GOOS=darwin build configurations and with test files loaded;
 #  (3) the rules on /repo's current working tree, evidence tier=thorough with (1) and (2) embedded.
@@ -47,6 +47,11 @@ for name,props in sorted(idx.items()):
     if sys.argv[2] in props:
         print("%s preserving silent %s/selftest/preserving/%s.diff ''" % (name, sys.argv[3], name))
 PY
+  # independently produced behaviour-preserving refactorings of this property's anchored code
+  for f in "$HERE"/selftest/refactorings/"$PROP"-r*.diff "$HERE"/selftest/refactorings2/"$PROP"-r*.diff; do
+    [ -f "$f" ] || continue
+    echo "$(basename "$f" .diff) preserving silent $f ''"
+  done
 } | xargs -P "$J" -L 1 bash -c 'variant "$0" "$1" "$2" "$3" "$4"'
 
 # (2) other build configurations
